@@ -7,7 +7,8 @@ CONSTANTS
   MaxChunks = 2
   NVals = {2}
   Damaging = FALSE
+  Cards = {31, 32, 33, 34, 63, 64, 65}
   EmitMode = "all"
 VIEW View
-INVARIANTS TypeOK RanksOK IndexOK Stable DamageDetected EmitState
+INVARIANTS TypeOK RanksOK IndexOK Stable WideOK DamageDetected EmitState
 CHECK_DEADLOCK FALSE
